@@ -142,6 +142,17 @@ def _mi(t, case, rng):
     sizes = [n] if rng.random() < 0.5 else gen.split_sizes(rng, n, kmax=3)
     if style == 'bins_only' and sizes[0] < 2:
         sizes = [2, n - 2]
+    if style != 'bins_only' and n >= 3 and rng.random() < 0.3:
+        # a saturated trace - every sample exactly on the (inclusive) last edge, or beyond it - processed as a batch of its own
+        x = np.array(x, copy=True)
+        top = np.asarray(spec['bin_edges'], dtype=float)[-1]
+        sat = np.full(T, top)
+        if rng.random() < 0.5:
+            sat[rng.random(T) < 0.5] = top + abs(top) * 0.5 + 1.0
+        x[-1] = sat.astype(x.dtype)
+        if float(x[-1].astype(float)[0]) in (top, top + abs(top) * 0.5 + 1.0) or np.dtype(x.dtype).kind == 'f':
+            sizes = [n - 1, 1] if len(sizes) == 1 else sizes[:-1] + ([sizes[-1] - 1, 1] if sizes[-1] > 1 else [1])
+            t.count('saturated_trace_in_its_own_batch')
     obj = subjects.make(spec)
     pos = 0
     for s in sizes:
